@@ -59,6 +59,8 @@ inductive Act where
   | addLoad (i v c : Nat)    -- Add/Record/Start(ctx c): `i.delegate.Load()`
   | addFwd                   -- forward to the loaded delegate, or drop
   | reg (m : Nat)            -- RegisterCallback on placeholder meter m (whole critical section)
+  | regPartial (m : Nat)     -- the same, naming own AND foreign observables: the SDK will register it for the own ones and
+                             -- return an error as well (sdk/metric RegisterCallback: live Registration + error)
   | regBad (m : Nat)         -- RegisterCallback on a NOT yet delegated placeholder meter m naming an observable the SDK will
                              -- reject (an instrument of another meter): the placeholder accepts it silently
   | unregTake (r : Nat)      -- Unregister: Lock unregMu; unreg := c.unreg; c.unreg = nil; Unlock
@@ -96,6 +98,7 @@ structure ObsEntry where
   inst : Nat
   v : Nat
   unwrapped : Bool
+  own : Bool        -- the instrument belongs to the registration's meter (the SDK drops observations of any other)
 deriving DecidableEq, Repr
 
 structure St where
@@ -128,6 +131,11 @@ structure St where
   obsLog : List ObsEntry := []
   /-- the SDK will reject this registration (`RegisterCallback` returns an error) -/
   rBad : Nat → Bool := fun _ => false
+  /-- the SDK will accept this registration AND return an error (some of its observables are foreign) -/
+  rErr : Nat → Bool := fun _ => false
+  /-- variant switch (never changed by a label; `false` = the code since fix c3e813c): `registration.setDelegate`
+  returns on ANY error and drops a live Registration that came with it (former finding F50) — for the witness only -/
+  dropOnErr : Bool := false
   /-- errors handed to the global error handler by `registration.setDelegate` -/
   handled : Nat := 0
   /-- variant switch (never changed by a label; `false` = the code as it is): the `*unwrapObs` is allocated once per
@@ -185,12 +193,22 @@ def step (old : Bool) (s : St) (t : Nat) (a : Act) : Option St :=
                       unregCalled := upd s.unregCalled s.nR false,
                       registry := upd s.registry m (s.registry m ++ [s.nR]) }
     else none
+  | .regPartial m =>
+    if s.frame t = .idle ∧ m < s.nM ∧ s.mOwner m = none ∧ s.mDel m = false then
+      some { s with nR := s.nR + 1, rMeter := upd s.rMeter s.nR m,
+                    rUnreg := upd s.rUnreg s.nR .closure, sdkReg := upd s.sdkReg s.nR 0,
+                    sdkUnreg := upd s.sdkUnreg s.nR 0, tok := upd s.tok s.nR false,
+                    unregCalled := upd s.unregCalled s.nR false, rBad := upd s.rBad s.nR false,
+                    rErr := upd s.rErr s.nR true,
+                    registry := upd s.registry m (s.registry m ++ [s.nR]) }
+    else none
   | .regBad m =>
     if s.frame t = .idle ∧ m < s.nM ∧ s.mOwner m = none ∧ s.mDel m = false then
       some { s with nR := s.nR + 1, rMeter := upd s.rMeter s.nR m,
                     rUnreg := upd s.rUnreg s.nR .closure, sdkReg := upd s.sdkReg s.nR 0,
                     sdkUnreg := upd s.sdkUnreg s.nR 0, tok := upd s.tok s.nR false,
                     unregCalled := upd s.unregCalled s.nR false, rBad := upd s.rBad s.nR true,
+                    rErr := upd s.rErr s.nR false,
                     registry := upd s.registry m (s.registry m ++ [s.nR]) }
     else none
   | .unregTake r =>
@@ -280,6 +298,18 @@ def step (old : Bool) (s : St) (t : Nat) (a : Act) : Option St :=
         -- closure, the element is removed from the registry all the same and the loop goes on with the next one
         some { s with rOwner := upd s.rOwner r none, registry := upd s.registry m ((s.registry m).erase r),
                       handled := s.handled + 1, frame := upd s.frame t (.iInsts m) }
+      else if s.rErr r then
+        -- the SDK registers the callback for its own observables and returns an error as well: the error is handled
+        -- and the Registration is KEPT (`if reg == nil { return }`, fix c3e813c) …
+        if s.dropOnErr then
+          -- … before that fix: `return` on any error — the SDK holds the callback, `unreg` keeps the closure (F50)
+          some { s with rOwner := upd s.rOwner r none, registry := upd s.registry m ((s.registry m).erase r),
+                        sdkReg := upd s.sdkReg r (s.sdkReg r + 1), handled := s.handled + 1,
+                        frame := upd s.frame t (.iInsts m) }
+        else
+          some { s with rOwner := upd s.rOwner r none, registry := upd s.registry m ((s.registry m).erase r),
+                        rUnreg := upd s.rUnreg r .sdk, sdkReg := upd s.sdkReg r (s.sdkReg r + 1),
+                        handled := s.handled + 1, frame := upd s.frame t (.iInsts m) }
       else
         some { s with rOwner := upd s.rOwner r none, registry := upd s.registry m ((s.registry m).erase r),
                       rUnreg := upd s.rUnreg r .sdk, sdkReg := upd s.sdkReg r (s.sdkReg r + 1),
@@ -320,7 +350,8 @@ def step (old : Bool) (s : St) (t : Nat) (a : Act) : Option St :=
     | .cbRun r o w =>
       if i < s.nI then
         some { s with obsLog := { r := r, coll := o, target := if s.sharedWrap then s.rWrap r else w,
-                                  inst := i, v := v, unwrapped := s.iDel i } :: s.obsLog }
+                                  inst := i, v := v, unwrapped := s.iDel i,
+                                  own := decide (s.iMeter i = s.rMeter r) } :: s.obsLog }
       else none
     | _ => none
   | .cbEnd =>
